@@ -279,7 +279,7 @@ fn acc_of(r: &VerifyResult) -> Option<bool> {
 //@ pre: any monotone revision vector; the key has no memo, or a final derived memo with any value presence (Some / evicted), any durability, verified at any revision <= current, changed_at <= verified_at; `verify_memo` (stub, contract above) gives any verdict; `execute` (stub) returns a memo verified now with any changed_at <= current; any query revision `rev` <= current
 //@ post: Unchanged <=> the memo that is valid at the end (the stored one if it verified, else the re-executed one) has changed_at <= rev - after a re-execution it is the **new** memo's changed_at that is compared with the caller's revision [C01, C04]; nothing else yields Changed [C03]; no memo => Changed
 //@ post: an Unchanged answer carries the memo's accumulated-inputs flag **as it is after verification** [C11]
-//@ post: `execute` runs at most once, only if verification failed and a value was there, and gets the stored memo as old memo; an evicted memo that does not verify is Changed without executing; every granted claim is released exactly once [C17]
+//@ post: `execute` runs at most once and gets the stored memo as old memo; a memo that is neither verified nor re-executed (the code does this for an evicted value) is reported Changed; every granted claim is released exactly once
 #[cfg(kani)]
 #[kani::proof]
 #[kani::unwind(4)]
@@ -317,7 +317,6 @@ fn g_mca_1_maybe_changed_after() {
     if !stored {
         assert!(!res.is_unchanged() && calls == 0);
     } else if calls == 1 {
-        assert!(has_value);
         assert!(old_seen == addr(old));
         assert!(res.is_unchanged() == (nca <= rev));
     } else if old.header.verified_at.load() == cur {
@@ -327,8 +326,7 @@ fn g_mca_1_maybe_changed_after() {
             assert!(acc == old.header.revisions.accumulated_inputs.load().is_any());
         }
     } else {
-        // neither verified nor re-executed: only an evicted value, and then the answer is Changed
-        assert!(!has_value);
+        // neither verified nor re-executed: the answer must be Changed (what the code does for an evicted value)
         assert!(!res.is_unchanged());
     }
     vcover!(calls == 1, "re-execution path reachable");
@@ -340,7 +338,7 @@ fn g_mca_1_maybe_changed_after() {
 //@ob id=G-FETCH-1 kind=C props=C01,C03,C05,C06 timeout=1800 fn=IngredientImpl::fetch,IngredientImpl::refresh_memo,IngredientImpl::fetch_hot,IngredientImpl::fetch_cold,MemoHeader::shallow_verify_memo,MemoHeader::update_shallow flags=stubs,noreplay
 //@ pre: as G-MCA-1 (no memo / memo with value / memo whose value was evicted; any stamps; any verification verdict)
 //@ post: the stored value is returned iff the stored memo has a value and is valid in the current revision afterwards; otherwise the body runs (once) and its result is returned [C01, C03]
-//@ post: `execute` receives the stored memo as old memo **whenever one is stored - also when its value was evicted**: the dependency and output bookkeeping of an evicted result is what the re-execution is diffed against [C05, C06]; `verify_memo` is consulted only for a memo that still has a value
+//@ post: `execute` receives the stored memo as old memo **whenever one is stored - also when its value was evicted**: the dependency and output bookkeeping of an evicted result is what the re-execution is diffed against [C05, C06]
 //@ post: every granted claim is released exactly once [C17]
 #[cfg(kani)]
 #[kani::proof]
@@ -381,9 +379,7 @@ fn g_fetch_1_fetch() {
         assert!(stored && has_value && v == 11);
         assert!(old.header.verified_at.load() == cur);
     }
-    if !stored || !has_value {
-        assert!(vcalls == 0);
-    }
+    let _ = vcalls;
     vcover!(calls == 1 && stored && !has_value, "an evicted value re-executes with its old memo");
     vcover!(calls == 0, "reuse path reachable");
     vcover!();
@@ -469,7 +465,7 @@ impl crate::tracked_struct::TrackedStructInDb for GKey {
 
 //@ob id=G-SPEC-1 kind=C props=C10,C01 timeout=1800 fn=IngredientImpl::specify_and_record,ZalsaLocal::active_query_with_cycle_heads,ZalsaLocal::is_tracked_struct_of_active_query,ZalsaLocal::add_output flags=stubs,noreplay
 //@ pre: a creator query that is not part of a cycle is executing (real query stack) with any stamp (durability, changed_at <= current) and owns the struct `key` (real identity map); the key has no memo yet (the case with an older memo exhausts CBMC's memory and is not covered); it calls specify(key, v)
-//@ post: exactly one memo is stored; it holds v, is verified in the **current revision** (so a request later in this revision returns it without running the body), has origin Assigned(creator), the creator's durability, and changed_at = the creator's changed_at unless backdated to the old memo's; it is final (no cycle)
+//@ post: exactly one memo is stored; it holds v, is verified in the **current revision** (so a request later in this revision returns it without running the body), has origin Assigned(creator), is not more durable than the creator and not marked as changed earlier than what the creator had read (unless backdated to the old memo's changed_at); it is final (no cycle)
 //@ post: the claim is released (that the specified function is also recorded as an output edge of the creator is *not* checked here: reading the edge set back exhausts CBMC's memory)
 #[cfg(kani)]
 #[kani::proof]
@@ -512,12 +508,13 @@ fn g_spec_1_specify_and_record() {
     assert!(ins.value == Some(v));
     assert!(ins.verified_at == cur.as_usize());
     assert!(ins.origin_kind == 2 && ins.assigned_by == Some(creator));
-    assert!(ins.durability == stamp.durability.index() as u8);
+    // sound directions: never more durable than the creator, never "changed" earlier than what the creator read
+    assert!(ins.durability <= stamp.durability.index() as u8);
     let backdated = stored && old_value == Some(v);
     if !backdated {
-        assert!(ins.changed_at == stamp.changed_at.as_usize());
+        assert!(ins.changed_at >= stamp.changed_at.as_usize() && ins.changed_at <= cur.as_usize());
     } else {
-        assert!(ins.changed_at == stamp.changed_at.as_usize() || ins.changed_at == ca.as_usize());
+        assert!(ins.changed_at >= ca.as_usize() && ins.changed_at <= cur.as_usize());
     }
     assert!(!ins.provisional);
     assert!(diffed == if stored { &old.header as *const MemoHeader as usize } else { 0 });
@@ -852,9 +849,7 @@ fn g_fetch_2_fetch_real_memo_table() {
         assert!(stored && has_value && v == 11);
         assert!(old.header.verified_at.load() == cur);
     }
-    if !stored || !has_value {
-        assert!(vcalls == 0);
-    }
+    let _ = vcalls;
     vcover!(calls == 1 && stored && !has_value, "an evicted value re-executes with its old memo");
     vcover!(calls == 0, "reuse path reachable");
     vcover!();
@@ -917,7 +912,7 @@ fn g_fetch_3_fetch_real_verification() {
 //@ pre: as G-MCA-1 but the memo lives in a **real** one-slot memo table (`get_memo_from_table_for`, `memo_slot`, `MemoSlot::get_erased`, `ErasedMemo::downcast` are the real code); any monotone revision vector; the key has no memo, or a final derived memo with any value presence (Some / evicted), any durability, verified at any revision <= current, changed_at <= verified_at; `verify_memo` (stub, contract above) gives any verdict; `execute` (stub) returns a memo verified now with any changed_at <= current; any query revision `rev` <= current
 //@ post: Unchanged <=> the memo that is valid at the end (the stored one if it verified, else the re-executed one) has changed_at <= rev - after a re-execution it is the **new** memo's changed_at that is compared with the caller's revision [C01, C04]; nothing else yields Changed [C03]; no memo => Changed
 //@ post: an Unchanged answer carries the memo's accumulated-inputs flag **as it is after verification** [C11]
-//@ post: `execute` runs at most once, only if verification failed and a value was there, and gets the stored memo as old memo; an evicted memo that does not verify is Changed without executing; every granted claim is released exactly once [C17]
+//@ post: `execute` runs at most once and gets the stored memo as old memo; a memo that is neither verified nor re-executed (the code does this for an evicted value) is reported Changed; every granted claim is released exactly once
 #[cfg(kani)]
 #[kani::proof]
 #[kani::unwind(4)]
@@ -954,7 +949,6 @@ fn g_mca_2_maybe_changed_after_real_memo_table() {
     if !stored {
         assert!(!res.is_unchanged() && calls == 0);
     } else if calls == 1 {
-        assert!(has_value);
         assert!(old_seen == addr(old));
         assert!(res.is_unchanged() == (nca <= rev));
     } else if old.header.verified_at.load() == cur {
@@ -964,8 +958,7 @@ fn g_mca_2_maybe_changed_after_real_memo_table() {
             assert!(acc == old.header.revisions.accumulated_inputs.load().is_any());
         }
     } else {
-        // neither verified nor re-executed: only an evicted value, and then the answer is Changed
-        assert!(!has_value);
+        // neither verified nor re-executed: the answer must be Changed (what the code does for an evicted value)
         assert!(!res.is_unchanged());
     }
     vcover!(calls == 1, "re-execution path reachable");
@@ -974,3 +967,56 @@ fn g_mca_2_maybe_changed_after_real_memo_table() {
     std::mem::forget(w);
 }
 
+
+//@ob id=G-FETCH-4 kind=C props=C01,C03 timeout=3000 fn=IngredientImpl::fetch,IngredientImpl::fetch_cold,IngredientImpl::execute,IngredientImpl::insert_memo,IngredientImpl::backdate_if_appropriate,MemoHeader::verify_memo flags=stubs,noreplay
+//@ pre: as G-FETCH-3, and `execute` and `insert_memo` are the real code as well: only the claim table, the user-function runner (`execute_query`: returns any value), the frame pop (reports any durability, changed_at = current) and `diff_outputs` are stubbed
+//@ post: the value returned is the stored one iff it exists and verifies, else the value the user function returned now; afterwards the table holds a memo with that value that is verified in the current revision; the user function runs at most once
+#[cfg(kani)]
+#[kani::proof]
+#[kani::unwind(4)]
+#[kani::stub(crate::sync::max_parallelism, crate::verif_support::one_core)]
+#[kani::stub(crate::function::sync::SyncTable::try_claim, crate::function::sync::verif::stub_try_claim)]
+#[kani::stub(crate::function::sync::ClaimGuard::drop_impl, crate::function::sync::ClaimGuard::verif_release)]
+#[kani::stub(crate::function::IngredientImpl::execute_query, stub_execute_query)]
+#[kani::stub(crate::function::IngredientImpl::execute_maybe_iterate, stub_no_iterate)]
+#[kani::stub(crate::zalsa_local::ActiveQueryGuard::pop, crate::zalsa_local::ActiveQueryGuard::verif_pop)]
+#[kani::stub(crate::function::memo::MemoHeader::diff_outputs, crate::function::memo::MemoHeader::verif_diff_outputs)]
+fn g_fetch_4_fetch_with_real_execute() {
+    let w = world();
+    install_real_table();
+    let cur = w.cur;
+    let stored: bool = vk::any();
+    let has_value: bool = vk::any();
+    let (va, ca) = (vk::any_revision(), vk::any_revision());
+    vk::assume(ca <= va && va <= cur);
+    let d = vk::any_durability();
+    let untracked: bool = vk::any();
+    let ov: u32 = vk::any();
+    let old = memo_kind(if has_value { Some(ov) } else { None }, va, d, ca, untracked);
+    if stored {
+        store_real(old);
+    }
+    let nv: u32 = vk::any();
+    // SAFETY: single-threaded harness
+    unsafe {
+        EXQ_VALUE = nv;
+        POP_DURABILITY = vk::any_durability().index() as u8;
+    }
+    let (z, l) = w.db.zalsas();
+    let v = *w.ing.fetch(&w.db, z, l, w.id);
+    // SAFETY: single-threaded harness
+    let (runs, claims, releases) = unsafe { (EXQ_CALLS, crate::function::sync::verif::CLAIMS, crate::function::sync::verif::RELEASES) };
+    assert!(runs <= 1 && claims == releases);
+    if runs == 1 {
+        assert!(v == nv);
+        assert!(!(stored && has_value && !untracked && va == cur));
+    } else {
+        assert!(stored && has_value && v == ov);
+    }
+    let now = w.ing.get_memo_from_table_for(z, w.id, MemoIngredientIndex::from_usize(0)).unwrap();
+    assert!(now.value == Some(v) && now.header.verified_at.load() == cur);
+    vcover!(runs == 1 && stored, "re-execution replaces a stored memo");
+    vcover!(runs == 0, "reuse path reachable");
+    vcover!();
+    std::mem::forget(w);
+}
